@@ -569,6 +569,21 @@ class Gen:
         # block-local qubits are never released by the runtime: they still count
         return dict(k="block", body=body) if body else None
 
+    def stmt_qassign(self):
+        """a = b;  for qubit handles: from now on 'a' denotes b's qubit (its own stays allocated, unreachable);
+        a @tracked 'a' still reports at its scope exit - the outcome of the qubit it denotes then."""
+        dsts = [v for v in self.visible("vars") if not v.startswith("lt") and v not in self.alias_of]
+        if not dsts:
+            return None
+        dst = self.r.choice(dsts)
+        srcs = [q for q in self.qrefs() if q[0] in ("v", "e") and self.key_of(q) != self.key_of(("v", dst))
+                and not (q[0] == "v" and q[1] in self.visible("aliases"))]
+        if not srcs:
+            return None
+        src = self.r.choice(srcs)
+        self.alias_of[dst] = self.key_of(src)
+        return dict(k="qassign", dst=dst, src=src)
+
     def stmt_misuse(self):
         # an operation on a qubit; whether it is legal is decided by the model at run time
         self.misusing = True
@@ -587,7 +602,11 @@ class Gen:
             if inner and k in ("new", "destroy", "alias"):
                 k = "gate"
             s = None
-            if k == "gate":
+            if k == "decl" and self.p in ("tracked", "measure", "gates") and self.r.random() < 0.25 and not inner:
+                k = "qassign"
+            if k == "qassign":
+                s = self.stmt_qassign()
+            elif k == "gate":
                 s = self.stmt_gate()
             elif k == "measure":
                 s = self.stmt_measure()
@@ -607,6 +626,7 @@ class Gen:
                 s = self.stmt_alias()
             elif k == "block":
                 s = self.stmt_block(depth)
+
             elif k == "misuse":
                 s = self.stmt_misuse()
             elif k == "measure_reg":
@@ -706,6 +726,8 @@ class Renderer:
                 self.emit(ind, "HG<int> %s = new HG<%s>();" % (s["name"], "int" if len(s["name"]) % 2 else ""), s)
             else:
                 self.emit(ind, "%s %s = new %s();" % (s["cls"], s["name"], s["cls"]), s)
+        elif k == "qassign":
+            self.emit(ind, "%s = %s;" % (s["dst"], render_qref(s["src"])), s)
         elif k == "destroy":
             self.emit(ind, "destroy %s;" % s["name"], s)
         elif k == "alias":
@@ -1332,6 +1354,19 @@ class Model:
                 inst.refs -= 1
                 if inst.refs == 0:
                     self.release(inst, "destroy")
+        elif k == "qassign":
+            idx = self.resolve(s["src"])
+            old = self.lookup(s["dst"])[1]
+            for sc in reversed(self.scopes):
+                if s["dst"] in sc:
+                    sc[s["dst"]] = ("q", idx)
+                    break
+            if self.live.get(old) == "var " + s["dst"]:
+                del self.live[old]              # its own qubit can no longer be named
+            for lst in self.tracked_scopes:
+                for j, (key, ix) in enumerate(lst):
+                    if key == "qubit " + s["dst"]:
+                        lst[j] = (key, [idx])   # the tracked record follows the handle
         elif k == "alias":
             spare = self.alloc("spare of " + s["name"])
             # the declaration's own qubit is dropped immediately (never reachable)
